@@ -221,4 +221,6 @@ def run(ctx):
     # ---- surrogates (shared with C20) and the encoders
     rules += rule_surrogate(ctx, m)
     rules.append(rule_utf(ctx, m))
+    from rules.common import rule_case_pairs
+    rules.append(rule_case_pairs(ctx, m))
     return rules
